@@ -67,8 +67,9 @@ def term(s):
     if t == "dict":
         return {"t": "dict", "es": [{"k": key(k), "v": term(v)} for k, v in s["v"]]}
     if t == "fnref":
-        return {"t": "fnref", "qn": TARGET_QN, "pargs": [term(x) for x in s.get("pargs", [])],
-                "pkw": [{"k": key(k), "v": term(v)} for k, v in s.get("pkw", [])], "params": [key(p) for p in TARGET_PARAMS]}
+        return {"t": "fnref", "qn": s.get("qn", TARGET_QN), "pargs": [term(x) for x in s.get("pargs", [])],
+                "pkw": [{"k": key(k), "v": term(v)} for k, v in s.get("pkw", [])],
+                "params": [key(p) for p in s.get("params", TARGET_PARAMS)]}
     raise ValueError(t)
 
 
@@ -205,6 +206,52 @@ def canon_spec(s):
     return s
 
 
+def suite_keys(rep, wd):
+    """the argument keys the repository's own tests compute: every FunctionReferenceWithArguments built while the suite
+    runs (recorded by the pytest plugin) must carry the SHA-256 of the text ArgKey.tla gives for that call"""
+    from . import suite_rec
+    doc = suite_rec.record_suite(wd)
+    recs = doc.get("args", [])
+    bad = [r for r in recs if "recorder_error" in r]
+    if bad:
+        raise common.Machinery("argument recorder failed: %s" % bad[0]["recorder_error"])
+    cases = []
+    for i, r_ in enumerate(recs):
+        call = {"params": [key(x) for x in r_["params"]], "pargs": [term(x) for x in r_["pargs"]],
+                "pkw": [{"k": key(k), "v": term(v)} for k, v in r_["pkw"]],
+                "args": [term(x) for x in r_["args"]], "kw": [{"k": key(k), "v": term(v)} for k, v in r_["kw"]],
+                "ctx": [{"k": key(k), "v": term(v)} for k, v in r_["ctx"]]}
+        # (one group and one signature per case: the laws between cases are about the generated groups, not these)
+        cases.append({"id": i + 1, "group": i + 1, "sig": "suite%d" % (i + 1), "call": call})
+    if not cases:
+        raise common.Machinery("the recording run of the test suite built no argument keys")
+    inp, outp = os.path.join(wd, "suite_cases.json"), os.path.join(wd, "suite_texts.ndjson")
+    with open(inp, "w") as f:
+        json.dump({"cases": cases}, f)
+    tr = tlc.run("ArgKey", "ArgKey.cfg", wd, workers=1, env={"TRACE_FILE": inp, "OUT_FILE": outp}, timeout=900, jvm=("-Xss64m",))
+    if tr["errors"] or not os.path.exists(outp):
+        raise tlc.TlcError("ArgKey.tla failed on the suite's calls:\n" + "\n".join(tr["stdout"].split("\n")[-40:]))
+    rep.add_tlc(tr, "ArgKey.tla: canonical key text of every call the repository's test suite keys")
+    texts = {}
+    with open(outp) as f:
+        for line in f:
+            if line.strip():
+                d = json.loads(line)
+                texts[d["id"]] = d["text"]
+    nbad = 0
+    for c, r_ in zip(cases, recs):
+        want = hashlib.sha256(texts[c["id"]].encode("utf-8")).hexdigest()
+        if want != r_["hash"]:
+            nbad += 1
+            facts = {"property": "C04", "kind": "suite", "op": "Key", "why": ["key_is_sha256_of_canonical_text"], "qn": r_["qn"].split("#")[0],
+                     "test": r_.get("test", "")}
+            rep.violation(facts, {"call": r_, "key_text_from_ArgKey_tla": texts[c["id"]], "expected_hash": want, "hash": r_["hash"]})
+    rep.cov["suite_argument_keys_compared"] = len(cases)
+    rep.cov["suite_calls_outside_argument_domain"] = doc.get("args_outside_domain", {})
+    rep.cov["suite_pytest"] = doc.get("pytest_summary", "")
+    return nbad
+
+
 def run(prop, tier):
     rep = Report(prop, tier)
     quick = tier == "quick"
@@ -280,6 +327,7 @@ def run(prop, tier):
             facts = {"property": prop, "op": e.get("op"), "why": sorted(rj["why"]), "sig": g["sig"], "what": e.get("what", ""),
                      "exc": (e.get("exc") or "")[:100], "value_types": types}
             rep.violation(facts, {"group": g, "event": e, "failed_clauses": sorted(rj["why"])})
+        suite_keys(rep, wd)
         rep.assumptions += ["lexical tokens (number forms, escaped strings, ISO texts) come from Python's json/datetime writers; "
                             "SHA-256 is applied by the harness to the text produced by ArgKey.tla"]
     return rep.finish()
